@@ -257,11 +257,9 @@ func (fs LocalFileSystem) Copy(ctx context.Context, src, dst string, options *Co
 		return false, err
 	}
 
-	srcInfo, err := os.Stat(srcPath)
-	if err != nil {
+	if _, err := os.Stat(srcPath); err != nil {
 		return false, errFromOS(err)
 	}
-	srcPerm := srcInfo.Mode() & os.ModePerm
 
 	if err := checkSrcDst(srcPath, dstPath); err != nil {
 		return false, err
@@ -286,12 +284,20 @@ func (fs LocalFileSystem) Copy(ctx context.Context, src, dst string, options *Co
 			return err
 		}
 
+		// Copy each member to the same place below the destination
+		rel, err := filepath.Rel(srcPath, p)
+		if err != nil {
+			return err
+		}
+		target := filepath.Join(dstPath, rel)
+		perm := fi.Mode() & os.ModePerm
+
 		if fi.IsDir() {
-			if err := os.Mkdir(dstPath, srcPerm); err != nil {
+			if err := os.Mkdir(target, perm); err != nil {
 				return errFromOS(err)
 			}
 		} else {
-			if err := copyRegularFile(srcPath, dstPath, srcPerm); err != nil {
+			if err := copyRegularFile(p, target, perm); err != nil {
 				return err
 			}
 		}
